@@ -5,7 +5,7 @@ Prints what it did; refuses to overwrite a file that also changed in /verif sinc
 import os, sys, json, shutil, subprocess, filecmp, importlib.util, re
 pid = sys.argv[1]
 force = '--force' in sys.argv
-src = '/tmp/vb_%s' % pid
+src = [a.split('=',1)[1] for a in sys.argv if a.startswith('--src=')][0] if any(a.startswith('--src=') for a in sys.argv) else '/tmp/vb_%s' % pid
 dst = '/verif'
 SKIP_EXT = ('.vo', '.vok', '.vos', '.glob', '.aux', '.pyc', '.d', '.cache', '.cmi', '.cmx', '.o')
 SKIP_DIR = ('.git', 'coq/run', 'evidence', 'replays', '__pycache__', 'seeded')
